@@ -252,6 +252,9 @@ class Check:
             s.inconclusive.append('%s: %s (x%d)' % (name, msg, n))
         for e in res.errors[:2]:
             s.inconclusive.append('%s: internal error: %s' % (name, e[-400:]))
+        for sl in res.steplimit:
+            if sl.get('kind') == 'steplimit' and not sl.get('request'):
+                s.inconclusive.append('%s: %s' % (name, sl.get('msg')))
         if res.completed == 0 and not res.unsupported:
             s.inconclusive.append('%s: vacuous harness (no completed path)' % name)
 
